@@ -42,7 +42,7 @@ class CHECK(FloCheck):
             "overrides, conditional auxes at several depths incl. two per frame and nested ones, transitions to self / "
             "ancestor / descendant / other subtree, stop/abort/start bids at chosen ticks; floeng.gen_program: random "
             "mixed programs), 4-14 ticks each; compared per tick and per framer: status, active, actives, done. "
-            "Non-trivial = a transition is taken, an auxiliary entered or a running framer stopped; distinct by program")
+            "Non-trivial = a transition is taken, an auxiliary entered or a running framer stopped; distinct by program. In 40 % of the framers the frames are declared in an order independent of the hierarchy (random or exactly reversed: children before parents, forward `in`/`under`/`go`/`first` references).")
     TRUSTED = ["correspondence: real Builder + Skedder on generated FloScript vs the Lean interpreter (engine 'flo'), "
                "end-of-tick snapshots taken when Skedder.run evaluates `if not ready`",
                "oracle recomputes outline/head from the declared `in`/`under` links (harness code floref.Machine.link)",
